@@ -57,7 +57,8 @@ class InfoFilePersister:
                                                            name_too_long)
             trashinfo_path = os.path.join(data.info_dir_path,
                                           trashinfo_basename)
-            if os.path.exists(path_of_backup_copy(trashinfo_path)):
+            # lexists: a dangling symlink in files/ occupies the name too
+            if os.path.lexists(path_of_backup_copy(trashinfo_path)):
                 index += 1
                 continue
             try:
